@@ -255,6 +255,9 @@ def translate(cfg, outdir):
             em.field(tag, f, ct)
     for tag in cfg.get("extra_structs", []):
         em.structs.setdefault(tag, {})
+    # boost::intrusive lists: the element class carries the member hook the list model flips
+    for tag, (ect, hook) in list(tm.ilist_insts.items()):
+        em.field(ect[len("struct "):], hook, "struct vf_ihook")
     for d, bs in cfg.get("extra_bases", {}).items():
         for b in bs:
             em.add_base(d, b)
@@ -363,6 +366,7 @@ def translate(cfg, outdir):
             "dropped": {k: em.dropped.count(k) for k in set(em.dropped)},
             "models": {"seq": tm.seq_insts, "pair": {k: list(v) for k, v in tm.pair_insts.items()},
                        "opt": tm.opt_insts, "set": tm.set_insts,
+                       "ilist": {k: list(v) for k, v in tm.ilist_insts.items()},
                        "map": {k: list(v) for k, v in tm.map_insts.items()}},
             "exceptions": sorted(em.exc_kinds)}
     with open(os.path.join(outdir, "gen.json"), "w") as f:
